@@ -14,9 +14,9 @@ Your job is the OPPOSITE of bug seeding: produce realistic, BEHAVIOUR-PRESERVING
 
 {chr(10).join(blocks)}
 
-For EACH property above produce 2 separate refactors of functions in its relevant files (so {2 * len(pids)} patches in total). Make them varied and non-trivial but strictly semantics-preserving, e.g.: renaming local variables or private attributes consistently; reordering independent statements; extracting or inlining a private helper function; replacing a loop by an equivalent comprehension (or the reverse); replacing positional by keyword arguments in an internal call (same values); early-return / guard-clause restructuring with identical conditions; replacing `a if c else b` chains by if/else blocks; introducing a local alias; equivalent arithmetic regrouping that is EXACT in floating point (do not reassociate float sums or change dtypes); adding type hints, comments, docstrings, logging at debug level. Do NOT change public signatures, defaults, the order of random-number consumption, dict key orders, iteration orders, or anything observable. Each patch must apply on its own to the unmodified checkout.
+For EACH property above produce 2 separate refactors: one of functions in its relevant files, and one of a helper the property depends on only indirectly (model interfaces in liesel/goose/interface.py, chains in liesel/goose/chain.py, epochs, pytree helpers, kernel mixins in liesel/goose/kernel.py, Model.update / state handling in liesel/model/model.py and nodes.py, builder / engine plumbing) - whichever is relevant to that property (so {2 * len(pids)} patches in total). Make them varied and non-trivial but strictly semantics-preserving, e.g.: renaming local variables or private attributes consistently; reordering independent statements; extracting or inlining a private helper function; replacing a loop by an equivalent comprehension (or the reverse); replacing positional by keyword arguments in an internal call (same values); early-return / guard-clause restructuring with identical conditions; replacing `a if c else b` chains by if/else blocks; introducing a local alias; equivalent arithmetic regrouping that is EXACT in floating point (do not reassociate float sums or change dtypes); adding type hints, comments, docstrings, logging at debug level. Do NOT change public signatures, defaults, the order of random-number consumption, dict key orders, iteration orders, or anything observable. Each patch must apply on its own to the unmodified checkout.
 
-Deliver inside {wt}/refactors/: for i = 1..{2 * len(pids)} a file `<PID>_<i>.diff` (output of `git diff` for that single refactor, made against the unmodified checkout) and one `index.json` listing for each patch: "file" (diff file name), "property", "what" (one sentence), "why_equivalent" (one or two sentences). Work on one refactor at a time: edit, `git diff > refactors/<name>.diff`, then `git checkout -- liesel` before starting the next one (the refactors directory is untracked and survives).
+Deliver inside {wt}/refactors/: for i = 1..{2 * len(pids)} a file `<PID>_{tag}<i>.diff` (e.g. C01_{tag}1.diff) (output of `git diff` for that single refactor, made against the unmodified checkout) and one `index.json` listing for each patch: "file" (diff file name), "property", "what" (one sentence), "why_equivalent" (one or two sentences). Work on one refactor at a time: edit, `git diff > refactors/<name>.diff`, then `git checkout -- liesel` before starting the next one (the refactors directory is untracked and survives).
 
 Check yourself: interpreter /venv/bin/python; ALWAYS set PYTHONPATH={wt}. For each patch run at least the relevant test files (cd {wt} && PYTHONPATH={wt} /venv/bin/python -m pytest -q -p no:cacheprovider tests/<relevant> > /tmp/out_ref_{tag}.log 2>&1; tail -3 /tmp/out_ref_{tag}.log). NEVER use `git stash`. There is no network access. Leave the worktree with no uncommitted source changes (only the refactors directory). When done, reply with a short list of the patches."""
 open(f"/var/tmp/prompt_ref_{tag}.txt", "w").write(txt)
